@@ -10,10 +10,10 @@ namespace OG.C17
 def Inv (p : Params) (s : State) : Prop := ∃ a ess ec, LogRep p s a ess ec
 
 /-- what raft guarantees about the entries of a `Save`, relative to the log held so far:
-storable values, consecutive indexes, no gap after the last index and nothing below the
+storable values (uint64 fields, payload shorter than 4 GiB), consecutive indexes, no gap after the last index and nothing below the
 first retained index -/
 structure SaveOK (p : Params) (σ : SpecState) (new : List Entry) : Prop where
-  ok : ∀ e ∈ new, e.OK ∧ e.Fits p
+  ok : ∀ e ∈ new, e.OK
   seq : ∀ e0 rest, new = e0 :: rest → Seq e0.index new
   range : ∀ e0 rest, new = e0 :: rest → σ.ents ≠ [] → σ.first ≤ e0.index ∧ e0.index ≤ σ.first + σ.ents.length
 
